@@ -100,6 +100,9 @@ func main() {
 		r.only = *only
 		r.Analysed["packages"] = len(p.PkgList)
 		r.Analysed["functions"] = p.nFuncs
+		if len(roleNotes) > 0 {
+			r.Tables["role_aliases"] = roleNotes
+		}
 		r.Trusted = []string{"go/parser, go/types (x/tools v0.29.0 go/packages loader)", "golang.org/x/tools/go/cfg", "the frozen role / idiom tables in /verif/checker"}
 		func() {
 			defer func() {
